@@ -1,6 +1,6 @@
 import VaxisModel.Model.Emu
-/-! F112c (C12, known finding; emulator side, widgets/term/term.go `resize`): the reflow loop of
-`resize()` sets the pen to the style of every reflowed cell of the primary screen and does not
+/-! F112c (C12, FIXED by /repo aefad78; emulator side, widgets/term/term.go `resize`): the reflow loop of
+`resize()` set the pen to the style of every reflowed cell of the primary screen and did not
 restore it, so after a host resize the pen is the style of the last reflowed cell. A Vaxis
 application (alternate screen) that redraws afterwards writes default-style cells without any SGR
 — `render()` rightly believes the pen was reset by the last flush — and they all show that stale
@@ -17,12 +17,30 @@ def ops : List EOp :=
    .csi [63, 104] [(1049, [])], .csi [72] [(2, []), (1, [])], .print [121] 1, .csi [109] [],
    .resize 5 2]
 
-/-- Before the resize the pen is the default; after it its background is palette index 4. -/
+/-- `runOps` over the code with a given set of repairs. -/
+def runOpsF (fx : Fixes) (e : Emu) : List EOp → M Emu
+  | [] => .ok e
+  | op :: rest => do
+    let (e', _) ← emuStepF fx e op
+    runOpsF fx e' rest
+
+/-- The code before the repair aefad78 (`f112c := false`): before the resize the pen is the default;
+    after it its background is palette index 4. -/
 theorem resize_leaves_stale_pen :
     (match Emu.new Fixes.current 4 2 with
      | .ok e0 =>
-       (match runOps e0 (ops.take 12), runOps e0 ops with
+       (match runOpsF { Fixes.current with f112c := false } e0 (ops.take 12),
+              runOpsF { Fixes.current with f112c := false } e0 ops with
         | .ok e1, .ok e2 => decide (e1.cur.st = {} ∧ e2.cur.st.bg = indexColor 4)
+        | _, _ => false)
+     | .error _ => false) = true := by decide +kernel
+
+/-- The code as it is now: the pen after the resize is the pen before it (the default). -/
+theorem resize_keeps_pen_now :
+    (match Emu.new Fixes.current 4 2 with
+     | .ok e0 =>
+       (match runOps e0 (ops.take 12), runOps e0 ops with
+        | .ok e1, .ok e2 => decide (e1.cur.st = {} ∧ e2.cur.st = {})
         | _, _ => false)
      | .error _ => false) = true := by decide +kernel
 
